@@ -94,6 +94,11 @@ pub fn worker_cache_with(a: &WorkerArgs, profile: &Profile, salt: u64) -> Accum 
         Err(TestError::Fail(_, case)) => {
             let out = run_case(&case, Some(prop), true);
             let f: Option<Failure> = out.fails.iter().find(|f| f.has(prop)).cloned();
+            let mut case = case;
+            if let Some(f) = &f {
+                // operations after the failing step never ran
+                case.ops.truncate(f.step);
+            }
             acc.violations.push(Violation {
                 replay_text: replay_text(prop, &case, f.as_ref(), &out.trace),
                 msg: f.as_ref().map(|f| f.msg.clone()).unwrap_or_else(|| "failure did not reproduce on re-run".into()),
@@ -652,4 +657,186 @@ pub fn sample_cases(n: u32, seed: u64) -> Vec<Case> {
         }
     }
     out
+}
+
+// --------------------------------------------- other K / V / S instantiations
+
+use crate::variants;
+
+pub fn variant_replay_text(prop: &str, variant: &str, case: &Case, f: Option<&Failure>) -> String {
+    let mut s = format!("# replay for property {}\n", prop);
+    if let Some(f) = f {
+        s.push_str(&format!("# failure at step {}: [{}] {}\n", f.step, f.sig, f.msg.replace('\n', " ")));
+    }
+    s.push_str(&format!("variant {}\n", variant));
+    s.push_str(&case.to_text());
+    s
+}
+
+pub fn worker_variants(a: &WorkerArgs) -> Accum {
+    let mut profile = Profile::for_property(a.prop, a.thorough);
+    profile.walk = profile.walk.max(10);
+    profile.forget = profile.forget.max(4);
+    profile.clone = profile.clone.max(5);
+    profile.clear = profile.clear.max(3);
+    profile.side = 0;
+    profile.inject = 0;
+    profile.churn = 0;
+    profile.max_ops = profile.max_ops.min(80);
+    profile.big = false;
+    let strategy = gen::case(&profile);
+    let acc = RefCell::new(Accum::default());
+    let failed = RefCell::new(false);
+    let mut runner = TestRunner::new(pt_config(a.cases, derive_seed(a.seed, a.index, 23)));
+    let prop = a.prop;
+    let result = runner.run(&strategy, |case| {
+        for v in variants::VARIANTS {
+            write_current(a.out, &variant_replay_text(prop, v, &case, None));
+            let out = variants::run_variant(v, &case).expect("known variant");
+            match judge(&out.fails, prop, a.known) {
+                Verdict::Pass => {
+                    if !*failed.borrow() {
+                        let mut acc = acc.borrow_mut();
+                        acc.cases += 1;
+                        acc.steps += out.steps;
+                        let mut any = false;
+                        for e in &out.events {
+                            any = true;
+                            acc.nt.insert(format!("variant|{}|{}", v, e));
+                        }
+                        if any { acc.nt_cases += 1; }
+                        if acc.samples.len() < 2 && any {
+                            acc.samples.push(format!("variant {} ; {}", v, sample_text(&case)));
+                        }
+                    }
+                },
+                Verdict::Known(sig) => { if !*failed.borrow() { let mut acc = acc.borrow_mut(); acc.cases += 1; *acc.known.entry(sig).or_insert(0) += 1; } },
+                Verdict::Foreign(sig) => { if !*failed.borrow() { let mut acc = acc.borrow_mut(); acc.cases += 1; *acc.foreign.entry(sig).or_insert(0) += 1; } },
+                Verdict::Violation(f) => {
+                    *failed.borrow_mut() = true;
+                    return Err(TestCaseError::fail(format!("[{}] {}", f.sig, f.msg)));
+                },
+            }
+        }
+        Ok(())
+    });
+    let mut acc = acc.into_inner();
+    match result {
+        Ok(()) => { },
+        Err(TestError::Fail(_, case)) => {
+            for v in variants::VARIANTS {
+                let out = variants::run_variant(v, &case).expect("known variant");
+                if let Verdict::Violation(f) = judge(&out.fails, prop, a.known) {
+                    let mut c = case.clone();
+                    c.ops.truncate(f.step);
+                    acc.violations.push(Violation { replay_text: variant_replay_text(prop, v, &c, Some(&f)), msg: f.msg.clone(), sig: f.sig.clone() });
+                    break;
+                }
+            }
+        },
+        Err(TestError::Abort(r)) => acc.notes.push(format!("proptest aborted: {}", r)),
+    }
+    acc
+}
+
+// ------------------------------------------------ table geometry (small scope)
+
+/// Systematic enumeration of hash-table corner states under the identity
+/// hasher (home bucket = key mod buckets): table size x fill level x
+/// displaced (colliding) keys x survivors after removals (tombstones) x
+/// removal order x the home bucket of one newly inserted key, followed by
+/// further use. Targets growth / rehash / tombstone reuse decisions.
+pub fn geometry_cases() -> Vec<Case> {
+    let mut out = Vec::new();
+    for &b in &[4usize, 8, 16, 32, 64] {
+        let cap = if b < 8 { b - 1 } else { b / 8 * 7 };
+        let mut fills = vec![cap, cap.saturating_sub(1).max(1), (cap / 2).max(1)];
+        fills.dedup();
+        for &fill in &fills {
+            for &displaced in &[0usize, 1, 3] {
+                if displaced >= fill { continue; }
+                let mut keeps = vec![0usize, 1, 3, (cap / 4).max(1)];
+                keeps.sort();
+                keeps.dedup();
+                for &keep in &keeps {
+                    if keep > fill { continue; }
+                    for descending in [false, true] {
+                        let homes: Vec<usize> = if b <= 32 { (0..b).collect() } else { (0..b).step_by(3).collect() };
+                        for &home in &homes {
+                            let mut ops = Vec::new();
+                            let seq = fill - displaced;
+                            let mut keys: Vec<u16> = (0..seq as u16).collect();
+                            for d in 0..displaced {
+                                keys.push((b + d * 5 % b.max(1)) as u16 + 0);
+                            }
+                            for (i, k) in keys.iter().enumerate() {
+                                ops.push(Op::Insert { key: KeySel::Raw(*k), kheap: 0, size: SizeSel::Abs((i % 3) as u32) });
+                            }
+                            // survivors: the displaced keys first, then the lowest sequential ones
+                            let mut survivors: Vec<u16> = keys.iter().rev().take(displaced.min(keep)).copied().collect();
+                            for k in keys.iter() {
+                                if survivors.len() >= keep { break; }
+                                if !survivors.contains(k) { survivors.push(*k); }
+                            }
+                            let mut victims: Vec<u16> = keys.iter().copied().filter(|k| !survivors.contains(k)).collect();
+                            if descending { victims.reverse(); }
+                            for (i, k) in victims.iter().enumerate() {
+                                ops.push(if i % 2 == 0 { Op::Remove { key: KeySel::Raw(*k), form: Form::Owned } }
+                                    else { Op::RemoveEntry { key: KeySel::Raw(*k), form: Form::Borrowed } });
+                            }
+                            let newkey = (home + 2 * b) as u16;
+                            ops.push(Op::Insert { key: KeySel::Raw(newkey), kheap: 0, size: SizeSel::Abs(1) });
+                            ops.push(Op::Get { key: KeySel::Lru, form: Form::Owned });
+                            ops.push(Op::IterWalk { kind: IterKind::Iter, calls: vec![true], rest: Rest::Front, fate: Fate::Drop });
+                            ops.push(Op::Insert { key: KeySel::Raw((home + 3 * b + 1) as u16), kheap: 0, size: SizeSel::Zero });
+                            ops.push(Op::TryInsert { key: KeySel::Raw((home + 4 * b + 2) as u16), kheap: 0, size: SizeSel::Zero });
+                            ops.push(Op::Remove { key: KeySel::Mru, form: Form::Borrowed });
+                            ops.push(Op::ShrinkToFit);
+                            ops.push(Op::Clone(CloneMode::Check));
+                            ops.push(Op::Reserve(CapArg::LenPlus(2)));
+                            out.push(Case {
+                                config: Config { hasher: crate::hashers::HKind::Identity, capacity: Some(cap as u32), limit: LimSel::Max, universe: 1024 },
+                                ops,
+                            });
+                        }
+                    }
+                }
+            }
+        }
+    }
+    out
+}
+
+pub fn worker_geometry(a: &WorkerArgs) -> Accum {
+    let mut acc = Accum::default();
+    let prop = a.prop;
+    for (n, case) in geometry_cases().into_iter().enumerate() {
+        if n as u64 % a.nworkers != a.index {
+            continue;
+        }
+        write_current(a.out, &case.to_text());
+        let out = run_case(&case, Some(prop), false);
+        match judge(&out.fails, prop, a.known) {
+            Verdict::Pass => {
+                acc.add_case(prop, &out.stats, || sample_text(&case));
+                let rebuilt = out.stats.events.get("rebuild.growth").copied().unwrap_or(0);
+                acc.nt.insert(format!("geometry|cap{}|ops{}|growth{}", case.config.capacity.unwrap_or(0), case.ops.len() / 8, rebuilt.min(2)));
+            },
+            Verdict::Known(sig) => { acc.cases += 1; *acc.known.entry(sig).or_insert(0) += 1; },
+            Verdict::Foreign(sig) => { acc.cases += 1; *acc.foreign.entry(sig).or_insert(0) += 1; },
+            Verdict::Violation(f) => {
+                let mut min = ddmin_ops(&case, |c| {
+                    let o = run_case(c, Some(prop), false);
+                    matches!(judge(&o.fails, prop, a.known), Verdict::Violation(_))
+                }, 300);
+                let out = run_case(&min, Some(prop), true);
+                let f2 = out.fails.iter().find(|f| f.has(prop)).cloned().unwrap_or(f);
+                min.ops.truncate(f2.step);
+                acc.violations.push(Violation { replay_text: replay_text(prop, &min, Some(&f2), &out.trace), msg: f2.msg.clone(), sig: f2.sig.clone() });
+                break;
+            },
+        }
+    }
+    acc.exhaustive = acc.violations.is_empty();
+    acc
 }
